@@ -57,6 +57,17 @@ type SimAPI struct {
 	inDelRun    bool
 	delRunForce bool
 	delRunKeys  map[string]bool
+	// passDeletes: every pod delete a controller issued since the last SortDeleteRuns that was not
+	// refused by a fault, in arrival order, with the index of the watch event it caused (-1: none).
+	// The batch each call belongs to is decided from this log AFTER the pass (SortDeleteRuns), by a
+	// rule that does not depend on the order in which the goroutines of one batch were scheduled.
+	passDeletes []delCall
+}
+
+type delCall struct {
+	key   string
+	force bool
+	ev    int // index into Pending["pods"] of the event this call caused, -1 if none
 }
 
 // Call describes one API call issued by a controller.
@@ -86,6 +97,11 @@ const (
 	FaultConflict   = "conflict"    // 409, not applied
 	FaultTimeout    = "timeout"     // timeout, not applied
 	FaultAppliedErr = "applied-err" // applied but reported as error (outside E-ErrNotApplied)
+	// 403 Forbidden, not applied: what the API server's admission chain answers for conditions that
+	// pass by themselves (exhausted ResourceQuota, LimitRange race, ServiceAccount of a new namespace
+	// not created yet) as well as for RBAC denials.  To a controller it is a transient failure like
+	// FaultErr: the call must be retried, never taken for a final refusal (that is 422 Invalid).
+	FaultForbidden = "forbidden"
 )
 
 func NewSimAPI(c clock.PassiveClock) *SimAPI {
@@ -138,26 +154,84 @@ func (a *SimAPI) emit(resource, typ string, obj runtime.Object) {
 	}
 }
 
-// SortDeleteRuns orders, by object key, every maximal run of consecutive events caused by
-// the delete calls of ONE concurrent batch among the events appended since index from: deletes
-// issued concurrently reach the server in an arbitrary order, which must not leak into the
-// explored history.  Events of different batches keep their order (batches are sequential).
+// SortDeleteRuns puts the watch events caused by the pod deletes of ONE controller pass (the events
+// appended since index from) into a canonical order that does not depend on goroutine scheduling.
+// The controller issues the deletes of one batch concurrently (deleteTasks -> ConcurrentTasks) and
+// waits for the batch before it goes on, so batches are sequential and only the deletes inside a
+// batch race: the events of a batch are ordered by object key, the batches keep their order.
+//
+// Which batch a call belongs to is decided here, after the pass, from the log of its delete calls —
+// NOT while the calls arrive (an earlier version opened a new batch "when a key repeats", which made
+// the batch of a call depend on which goroutine of the kill batch reached the server first: under
+// machine load the events of the pending-timeout batch and of the kill batch were then interleaved
+// differently from run to run, later single-event deliveries gave the pod cache different contents,
+// and a later pass force-deleted a different pod than the model: a flaky correspondence diff).
+// A pass has at most three delete batches, in this order (reconciler.go syncJobTasks; the finalizer's
+// single batch runs in passes that skip syncJobTasks):
+//  1. pending-timeout reaper, graceful, tasks P;
+//  2. kill sweep, graceful, tasks K — computed from the SAME task list, whose copies carry no deletion
+//     timestamp yet, so K ⊇ P: every key of P is deleted a second time (no event: already deleting);
+//  3. force deletion, gracePeriodSeconds=0 (disjoint from 1 and 2: it needs a deletion timestamp in
+//     the list copy).
+//
+// Hence: force calls are batch 3; among the graceful calls, if some key occurs twice, the FIRST
+// occurrences of the keys that occur twice are batch 1 and all other calls batch 2; if no key occurs
+// twice there is a single graceful batch.  Batches being sequential, this is independent of scheduling.
 func (a *SimAPI) SortDeleteRuns(resource string, from int) {
 	a.inDelRun = false // the sync is over: its last batch is closed
+	calls := a.passDeletes
+	a.passDeletes = nil
+	if resource != "pods" {
+		return
+	}
 	evs := a.Pending[resource]
-	i := from
-	for i < len(evs) {
-		j := i
-		for j < len(evs) && evs[j].Src == "delete" && evs[j].Run == evs[i].Run {
-			j++
+	count := map[string]int{}
+	for _, c := range calls {
+		if !c.force {
+			count[c.key]++
 		}
-		if j > i {
-			seg := evs[i:j]
-			sort.SliceStable(seg, func(x, y int) bool { return keyOf(seg[x].Obj) < keyOf(seg[y].Obj) })
-			i = j
-		} else {
-			i++
+	}
+	repeat := false
+	for _, n := range count {
+		if n > 1 {
+			repeat = true
 		}
+	}
+	type item struct {
+		batch int
+		key   string
+		ev    Event
+	}
+	var items []item
+	var positions []int
+	seen := map[string]bool{}
+	for _, c := range calls {
+		batch := 2
+		switch {
+		case c.force:
+			batch = 3
+		case repeat && count[c.key] > 1 && !seen[c.key]:
+			batch = 1
+		}
+		if !c.force {
+			seen[c.key] = true
+		}
+		if c.ev >= from && c.ev < len(evs) {
+			e := evs[c.ev]
+			e.Run = batch
+			items = append(items, item{batch, c.key, e})
+			positions = append(positions, c.ev)
+		}
+	}
+	sort.Ints(positions)
+	sort.SliceStable(items, func(x, y int) bool {
+		if items[x].batch != items[y].batch {
+			return items[x].batch < items[y].batch
+		}
+		return items[x].key < items[y].key
+	})
+	for i, pos := range positions {
+		evs[pos] = items[i].ev
 	}
 }
 
@@ -228,6 +302,10 @@ func (a *SimAPI) fault(c *Call, fromController bool) (string, error) {
 	case FaultConflict:
 		c.Result = "conflict"
 		return f, kerrors.NewConflict(gr(c.Resource), c.Key, fmt.Errorf("injected"))
+	case FaultForbidden:
+		c.Result = "err"
+		_, name, _ := splitKey(c.Key)
+		return f, kerrors.NewForbidden(gr(c.Resource), name, fmt.Errorf("injected: exceeded quota"))
 	case FaultAppliedErr:
 		return f, nil
 	}
@@ -409,12 +487,20 @@ func (a *SimAPI) Delete(resource, key string, force, fromController bool) error 
 		c.Result = "notfound"
 		if fromController {
 			a.log(c)
+			if resource == "pods" {
+				a.passDeletes = append(a.passDeletes, delCall{key: key, force: force, ev: -1})
+			}
 		}
 		_, name, _ := splitKey(key)
 		return kerrors.NewNotFound(gr(resource), name)
 	}
 	if fromController {
 		a.log(c)
+	}
+	rec := -1
+	if fromController && resource == "pods" {
+		a.passDeletes = append(a.passDeletes, delCall{key: key, force: force, ev: -1})
+		rec = len(a.passDeletes) - 1
 	}
 	cm, _ := meta.Accessor(cur)
 	graceful := resource == "pods" && !force
@@ -427,11 +513,17 @@ func (a *SimAPI) Delete(resource, key string, force, fromController bool) error 
 			nm.SetResourceVersion(a.nextRV())
 			a.objs[resource][key] = next
 			a.emit(resource, "update", next)
+			if rec >= 0 {
+				a.passDeletes[rec].ev = len(a.Pending[resource]) - 1
+			}
 		}
 		return nil
 	}
 	delete(a.objs[resource], key)
 	a.emit(resource, "delete", cur)
+	if rec >= 0 {
+		a.passDeletes[rec].ev = len(a.Pending[resource]) - 1
+	}
 	return nil
 }
 
